@@ -464,10 +464,10 @@ def cli_shard(args):
     agg = Agg()
     os.makedirs(common.SCRATCH, exist_ok=True)
     for i in range(n):
-        mode = rng.choice(["default", "y", "m"])
-        if mode == "default":
+        mode = rng.choice(["default", "y", "m", "o", "oy"])
+        if mode in ("default", "o"):
             v = gen_value(rng, "json")
-        elif mode == "y":
+        elif mode in ("y", "oy"):
             v = [gen_value(rng, "json") for _ in range(rng.randint(1, 3))]
         else:
             v = {k: gen_value(rng, "json") for k in rng.sample(["a", "b.json", "c_d", "e-f", "g h"], rng.randint(1, 3))}
@@ -476,7 +476,18 @@ def cli_shard(args):
             continue
         d = tempfile.mkdtemp(dir=common.SCRATCH)
         try:
-            argv = {"default": [], "y": ["-y"], "m": ["-m", d]}[mode] + ["-"]
+            ofile = os.path.join(d, "out.json")
+            argv = {"default": [], "y": ["-y"], "m": ["-m", d], "o": ["-o", ofile], "oy": ["-y", "-o", ofile]}[mode] + ["-"]
+            # the documents land in files that may already exist (an earlier, longer or shorter output)
+            existing = rng.choice([None, None, b"", b"{}\n", b"[\n" + b"   1,\n" * 3000 + b"   1\n]\n", b"x" * 100000])
+            if existing is not None:
+                if mode in ("o", "oy"):
+                    with open(ofile, "wb") as f:
+                        f.write(existing)
+                elif mode == "m":
+                    for k_ in list(v)[: rng.randint(1, len(v))]:
+                        with open(os.path.join(d, k_), "wb") as f:
+                            f.write(existing)
             p = subprocess.run([common.CLI] + argv, input=src.encode("utf-8"), capture_output=True, timeout=60,
                                env=dict(os.environ, NO_COLOR="1"))
             agg.evaluations += 1
@@ -485,10 +496,17 @@ def cli_shard(args):
                 agg.violation({"kind": "cli_failed", "mode": mode}, {"src": src[:500], "stderr": p.stderr[-300:]}, replay)
                 continue
             out = p.stdout.decode("utf-8")
+            if mode in ("o", "oy"):
+                try:
+                    with open(ofile, encoding="utf-8") as f:
+                        out = f.read()
+                except (OSError, UnicodeDecodeError) as e:
+                    agg.violation({"kind": "output_file_unreadable", "mode": mode}, {"src": src[:500], "why": str(e)}, replay)
+                    continue
             docs = []
-            if mode == "default":
+            if mode in ("default", "o"):
                 docs = [(out, v)]
-            elif mode == "y":
+            elif mode in ("y", "oy"):
                 parts = out.split("---\n")
                 if parts[0] != "" or not out.endswith("...\n"):
                     agg.violation({"kind": "yaml_stream_framing"}, {"src": src[:500], "out": out[:300]}, replay)
@@ -501,14 +519,14 @@ def cli_shard(args):
                 docs = list(zip(body, v))
             else:
                 for k, x in v.items():
-                    with open(os.path.join(d, k), encoding="utf-8") as f:
+                    with open(os.path.join(d, k), encoding="utf-8", errors="replace") as f:
                         docs.append((f.read(), x))
             for text, exp in docs:
                 bad = check_json_text(text, exp)
                 if bad:
                     agg.violation({"kind": bad[0], "emitter": "cli:" + mode, "msg": re.sub(r"[0-9]+", "N", bad[1])[:80]},
                                   {"src": src[:500], "text": text[:400], "problem": bad[1]}, replay)
-            agg.count("cli:" + mode)
+            agg.count("cli:" + mode + (":existing_target" if existing is not None and mode != "default" and mode != "y" else ""))
             agg.nontrivial.add(common.h64("cli", mode, src))
         finally:
             shutil.rmtree(d, ignore_errors=True)
@@ -544,7 +562,7 @@ def run(tier, seed):
             "through 15 emitters; decoded by an own strict RFC 8259 parser (sorted keys, no duplicates, no raw "
             "controls) + Python json, ast.literal_eval, tomllib, an own reader of the emitted YAML subset + PyYAML, "
             "and round trips through std.parseJson/parseYaml; exhaustive over U+0000..U+02FF and boundary code points "
-            "(as value, key, first/last char) and over a list of sensitive plain keys; CLI default/-y/-m outputs; "
+            "(as value, key, first/last char) and over a list of sensitive plain keys; CLI default / -y / -m / -o / -y -o outputs, also into files that already exist (empty, shorter, longer); "
             "history objects (genrmkey: inheritance chains with std.objectRemoveKey of the same key applied repeatedly, "
             "shared sub-objects, prior observation) through every emitter against the layer-deletion model's visible fields. "
             "distinct_nontrivial = distinct (emitter, value) pairs whose document was decoded and compared.")
